@@ -1,8 +1,12 @@
 /-
 C19 — transformations leave their inputs untouched and record provenance.
-In the model every transformation is a function, so "the input is unchanged" is automatic; what is
-proven is the provenance logic of the header and the restore logic of the one place where the code
-works in place (the `!=` loop).  Object aliasing in Python is observed by the harness (partial).
+This file: the PURE model — every transformation is a function, so "the input is unchanged" is automatic; what is
+proven here is the provenance logic of the header (on classified keys) and the restore logic of the one place where
+the code works in place (the `!=` loop), as arithmetic on lists.
+Objects, addresses, aliasing ("a NEW formula", "leaves the input untouched", "mutating the result later cannot change
+the input") are stated and proved on the HEAP model: Props/C19/Heap.lean (frame, freshness, non-interference, header on
+string keys), Props/C19/Neq.lean (builders and the `!=` loop on caller-owned lists), Props/C19/Refine.lean (the heap
+model computes what the pure model computes).
 -/
 import Props.C05
 import Props.C09
